@@ -357,6 +357,7 @@ def accuracy(ctx, n_curves):
                             ratios[kind].append(a / b)
                             ctx.count(f"T2:conclusive refinement ratio[{kind}]")
     nonuniform_accuracy(ctx, be, max(4, n_curves // 4))
+    edge_segments(ctx, be, max(16, n_curves // 2))
     for kind, thr in (("linear", 3.0), ("cubic", 5.5)):
         r = np.array(ratios[kind])
         if r.size >= 30:
@@ -450,6 +451,69 @@ def nonuniform_accuracy(ctx, be, n_curves):
                               "T4:hit lies on the section within the interpolation error (non-uniform grid)", lambda: {**wit(), "g_hit": gres})
 
 
+def edge_segments(ctx, be, n_curves):
+    """T6: crossings in the FIRST, second, second-last and LAST sample interval of a trajectory (where a cubic interpolant has only
+    one-sided slope information): one hit, inside its bracket, within the linear-interpolation error of that interval; an IndexError
+    from the interpolation code is an internal error (clause X)."""
+    rng = ctx.rng
+    for it in range(n_curves):
+        if not ctx.mine(it):
+            continue
+        cv = Curve(rng)
+        T = float(rng.uniform(2, 5))
+        normal = rng.normal(size=6)
+        normal /= np.linalg.norm(normal)
+        offset = float(rng.normal() * 0.2)
+        roots = exact_roots(cv, normal, offset, T)
+        if not roots:
+            continue
+        r, sg = roots[int(rng.integers(len(roots)))]
+        n = int(rng.choice([40, 120, 400]))
+        dt = float(rng.uniform(0.5, 1.0)) * T / 400
+        M2 = np.abs(cv.dx(np.linspace(-1, T + 1, 2001), order=2) @ normal).max()
+        M2x = np.abs(cv.dx(np.linspace(-1, T + 1, 801), order=2)).max()
+        gdot = abs(float(cv.dx(r)[0] @ normal))
+        if gdot < 6 * M2 * dt:
+            ctx.skip("edge crossing too tangential for the grid")
+            continue
+        where = ["first", "second", "second_last", "last"][it % 4]
+        theta = float(rng.uniform(0.15, 0.85))
+        kseg = {"first": 0, "second": 1, "second_last": n - 2, "last": n - 1}[where]
+        t0 = r - (kseg + theta) * dt
+        times = t0 + dt * np.arange(n + 1)
+        gg = cv.x(times) @ normal - offset
+        sign_changes = np.nonzero(gg[:-1] * gg[1:] < 0)[0]
+        if kseg not in sign_changes.tolist():
+            ctx.skip("edge crossing not bracketed by the constructed grid")
+            continue
+        # keep only the edge crossing in view: the other crossings of the window are judged by T2/T4
+        states = cv.x(times)
+        names, pidx = plane_names(rng)
+        for kind in ("linear", "cubic"):
+            for refine in (0, 3):
+                wit = lambda: {"where": where, "segment": kseg, "n": n, "dt": dt, "t0": t0, "kind": kind, "refine": refine, "normal": normal, "offset": offset,
+                               "w": cv.w, "exact_crossing": r}
+                try:
+                    hits = run_detector(be, times, states, normal=normal, offset=offset, plane_coords=names, interp_kind=kind,
+                                        segment_refine=refine, direction=None, dedup_time_tol=0.0, dedup_point_tol=0.0)
+                except (IndexError, KeyError) as exc:
+                    ctx.check(False, "X:library operation completes on a legitimate input (no internal IndexError/KeyError)", {**wit(), "error": repr(exc)[:300]})
+                    continue
+                ctx.case(f"edge:{where}:{kind}:refine{refine}", [it, ctx.seed, where, n, kind, refine], nontrivial=True)
+                mine = [h for h in hits if times[kseg] - 1e-12 <= h.time <= times[kseg + 1] + 1e-12]
+                if not ctx.check(len(mine) == 1, "T6:exactly one hit for a crossing in an edge interval of the trajectory", lambda: {**wit(), "lib": [h.time for h in hits]}):
+                    continue
+                h = mine[0]
+                et, ex = abs(h.time - r), np.abs(h.state - cv.x(r)[0]).max()
+                bound_t = 0.5 * M2 * dt * dt / gdot * 1.5 + 1e-13
+                vmax = np.abs(cv.dx(r)[0]).max()
+                bound_x = 0.5 * M2x * dt * dt + vmax * bound_t * 1.5 + 1e-13
+                ctx.stat(f"T6:time_err/linear_bound[{kind}:{where}]", et / bound_t)
+                ctx.stat(f"T6:state_err/linear_bound[{kind}:{where}]", ex / bound_x)
+                ctx.check(et <= bound_t and ex <= bound_x, "T6:error <= linear-interpolation error of the interval (crossing in an edge interval)",
+                          lambda: {**wit(), "t_err": et, "bound_t": bound_t, "x_err": ex, "bound_x": bound_x})
+
+
 def hermite_units(ctx):
     """Invariant on the Hermite helpers used by cubic refinement: derivative consistent with the value function."""
     from hiten.algorithms.poincare.utils import _hermite_der, _hermite_scalar
@@ -532,3 +596,4 @@ def run(ctx):
     ctx.require("T1:hits in time order", 200 if ctx.nshards == 1 else 20)
     ctx.require("T2:one hit per admissible exact crossing", 50 if ctx.nshards == 1 else 5)
     ctx.require("T5:one hit per admissible exact crossing for decreasing time stamps", 20 if ctx.nshards == 1 else 2)
+    ctx.require("T6:error <= linear-interpolation error of the interval (crossing in an edge interval)", 40 if ctx.nshards == 1 else 4)
